@@ -188,3 +188,10 @@ def extra_checks(tier, verif_seed, out):
     if res["mismatches"]:
         raise runners.HarnessError(f"reference model disagrees with gcc: {res['examples'][:2]}")
     return {"model_vs_gcc": {k: res[k] for k in ("worlds", "tus", "mismatches", "skipped")}}, []
+
+
+def dead_probes(tier, cov):
+    need = ["ambiguous_lookup", "same_spelling_other_ctx", "same_spelling_other_result", "once_headers"]
+    dead = [k for k in need if cov["probes"].get(k, 0) == 0]
+    dead += [k for k in ("cache_eviction", "flag_order") if cov["faults_fired"].get(k, 0) == 0]
+    return dead if cov["evaluations"] >= 200 else []
